@@ -35,6 +35,45 @@ class RTMod(symstr.SymStr):
                     return [(OK, hirai.UNIT, I.write(st, tgt[1], ("abs", "svec", cur[2] + (args[1],))))]
             return [(OK, hirai.UNIT, st)]
         a0 = I.deref_val(st, args[0]) if args else None
+        if a0 is not None and a0[0] == "abs" and a0[1] == "svec" and args[0][0] == "ref":
+            m_ = callee.rsplit("::", 1)[-1]
+            place = args[0][1]
+            vv = I.read(st, place)
+            while vv[0] == "ref":
+                place = vv[1]
+                vv = I.read(st, place)
+            items = list(a0[2])
+            if callee == "core::slice::<impl [T]>::swap":
+                i, j = I.deref_val(st, args[1]), I.deref_val(st, args[2])
+                if i[0] == "int" and j[0] == "int" and isinstance(i[1], int) and isinstance(j[1], int):
+                    if max(i[1], j[1]) >= len(items):
+                        return [(hirai.PANIC, ("swap out of bounds", n.get("sp") if isinstance(n, dict) else ""), st)]
+                    items[i[1]], items[j[1]] = items[j[1]], items[i[1]]
+                    return [(OK, hirai.UNIT, I.write(st, place, ("abs", "svec", tuple(items))))]
+            if callee == "core::slice::<impl [T]>::reverse":
+                return [(OK, hirai.UNIT, I.write(st, place, ("abs", "svec", tuple(reversed(items)))))]
+            if callee == "alloc::vec::Vec::<T, A>::pop":
+                if not items:
+                    return [(OK, none(), st)]
+                return [(OK, hirai.some(items[-1]), I.write(st, place, ("abs", "svec", tuple(items[:-1]))))]
+            if callee == "alloc::vec::Vec::<T, A>::insert":
+                i = I.deref_val(st, args[1])
+                if i[0] == "int" and isinstance(i[1], int) and i[1] <= len(items):
+                    items.insert(i[1], args[2])
+                    return [(OK, hirai.UNIT, I.write(st, place, ("abs", "svec", tuple(items))))]
+            if callee == "alloc::vec::Vec::<T, A>::remove":
+                i = I.deref_val(st, args[1])
+                if i[0] == "int" and isinstance(i[1], int):
+                    if i[1] >= len(items):
+                        return [(hirai.PANIC, ("Vec::remove out of bounds", n.get("sp") if isinstance(n, dict) else ""), st)]
+                    x = items.pop(i[1])
+                    return [(OK, x, I.write(st, place, ("abs", "svec", tuple(items))))]
+            if callee in ("core::slice::<impl [T]>::first", "core::slice::<impl [T]>::last"):
+                if not items:
+                    return [(OK, none(), st)]
+                return [(OK, hirai.some(items[0 if callee.endswith("first") else -1]), st)]
+            if callee.endswith("Deref>::deref") or callee.endswith("DerefMut>::deref_mut"):
+                return [(OK, args[0], st)]
         if a0 is not None and a0[0] == "abs" and a0[1] == "svec":
             if callee.endswith("IntoIterator>::into_iter") or callee == "core::iter::traits::collect::IntoIterator::into_iter" or callee.endswith("::iter") or callee.endswith("::into_iter"):
                 return [(OK, ("abs", "siter", a0[2], 0), st)]
